@@ -230,6 +230,7 @@ class td_build:
     ensures = {
         "covers": lambda order, graph, tree: covers(tree, old(keys(graph)), old(graph)),
         "frame": lambda order, graph, tree: tree_frame(tree, old(keys(graph))),
+        "nonempty": lambda tree: exists(lambda b: b in tree, "set[PyVal]"),
     }
 
 
